@@ -262,3 +262,49 @@ func driveLimits(s *exec.State, g *gen.G, n int) {
 		}
 	}
 }
+
+func init() { drivers["cprand"] = driveCPRand }
+
+// driveCPRand: random packet sequences of length 1..12, biased towards the
+// compound grammar's boundary shapes (C11).
+func driveCPRand(s *exec.State, g *gen.G, n int) {
+	sdes := func(withCNAME bool) abs.V {
+		t := 2
+		if withCNAME {
+			t = 1
+		}
+		items := abs.L{abs.V{"t": g.Pick(2, 3, 8), "text": g.Bytes(g.Int(0, 4))}}
+		if withCNAME || g.Bool() {
+			items = append(items, abs.V{"t": t, "text": g.Bytes(g.Int(0, 6))})
+		}
+		if g.Bool() {
+			items[0], items[len(items)-1] = items[len(items)-1], items[0]
+		}
+		cs := abs.L{abs.V{"src": g.U32(), "items": items}}
+		if g.R.Intn(3) == 0 {
+			cs = append(abs.L{abs.V{"src": g.U32(), "items": abs.L{}}}, cs...)
+		}
+		return abs.V{"k": "SDES", "chunks": cs}
+	}
+	for i := 0; i < n; i++ {
+		k := g.Pick(1, 2, 2, 3, 3, 4, 5, 6, 8, 12)
+		pk := make(abs.L, 0, k)
+		for j := 0; j < k; j++ {
+			switch {
+			case j == 0 && g.R.Intn(8) != 0:
+				if g.Bool() {
+					pk = append(pk, g.SR())
+				} else {
+					pk = append(pk, g.RR())
+				}
+			case g.R.Intn(3) == 0:
+				pk = append(pk, g.RR())
+			case g.R.Intn(3) == 0:
+				pk = append(pk, sdes(g.R.Intn(3) != 0))
+			default:
+				pk = append(pk, g.Of(g.Kinds()[g.R.Intn(len(gen.Kinds))]))
+			}
+		}
+		scriptCP(s, pk)
+	}
+}
